@@ -148,6 +148,7 @@ func (rc *retainCtx) retains(fn *ssa.Function, idx int, depth int) bool {
 func c15RetainedStorage(c *Ctx, pkg string) {
 	rc := &retainCtx{c: c, pkg: pkg, memo: map[string]int{}}
 	n := 0
+	evaluated := 0
 	ord := ordCounter{}
 	for _, fn := range c.PkgFuncs(pkg) {
 		file := c.Fset.Position(fn.Pos()).Filename
@@ -167,6 +168,7 @@ func c15RetainedStorage(c *Ctx, pkg string) {
 				if !strings.HasPrefix(a.Type().String(), "*") || i == 0 && callee.Signature.Recv() != nil {
 					continue
 				}
+				evaluated++
 				if !rc.retains(callee, i, 0) {
 					continue
 				}
@@ -177,8 +179,12 @@ func c15RetainedStorage(c *Ctx, pkg string) {
 			}
 		})
 	}
-	if n < 1 {
-		c.Unresolved("C15.R5", "calls passing a pointer that the callee retains (found 0)")
+	c.Extra["retention_pairs_evaluated"] = evaluated
+	if n == 0 && evaluated >= 1 {
+		c.Pass("C15.R5", "pkg/upstream/cluster:no-retained-pointer-argument", token.NoPos, fmt.Sprintf("%d (call, pointer argument) pairs evaluated, no callee keeps its argument", evaluated))
+	}
+	if evaluated < 1 {
+		c.Unresolved("C15.R5", fmt.Sprintf("calls passing a pointer to a function of the package (evaluated %d)", evaluated))
 	}
 }
 
@@ -366,5 +372,68 @@ func c15PresentNotEmpty(c *Ctx) {
 	}
 	if n < 3 {
 		c.Unresolved("C15.R1", "lookups into api.Metadata in pkg/upstream/cluster (expected ExtractSubsetMetadata, HostMatches, initIndex)")
+	}
+}
+
+// c15CacheHitExact (R8): the builder's memo of host selections answers only for the very set it was filled with.
+// selectHosts memoises "index set -> hosts" so that selectors resolving to the same hosts share one slice. A hit decided
+// by a fingerprint alone (min, max, size) hands a subset the hosts of a *different* set with the same span: requests go
+// to hosts that lack the requested pair, and the pre-indexed builder no longer agrees with the filtering one. Clause:
+// every non-nil value returned by a cache's get(*intsets.Sparse) is returned under the true edge of a test that
+// reaches (*intsets.Sparse).Equals on the key.
+func c15CacheHitExact(c *Ctx) {
+	pkg := "pkg/upstream/cluster"
+	reachesEquals := func(f *ssa.Function) bool {
+		for g := range staticReach([]*ssa.Function{f}, pkg) {
+			if len(callsIn(g, false, func(cc *ssa.CallCommon) bool {
+				cal := cc.StaticCallee()
+				return cal != nil && strings.HasSuffix(cal.String(), "intsets.Sparse).Equals")
+			})) > 0 {
+				return true
+			}
+		}
+		return false
+	}
+	n := 0
+	for _, fn := range c.PkgFuncs(pkg) {
+		if fn.Name() != "get" || fn.Signature.Recv() == nil || fn.Signature.Params().Len() != 1 || fn.Signature.Results().Len() != 1 {
+			continue
+		}
+		if !strings.HasSuffix(fn.Signature.Params().At(0).Type().String(), "intsets.Sparse") {
+			continue
+		}
+		n++
+		good, why := true, "every hit is returned under a full comparison of the index sets"
+		hits := 0
+		for _, rs := range returnSites(fn, 0) {
+			if isNilConst(rs.val) {
+				continue
+			}
+			hits++
+			exact := false
+			for _, g := range guardsAt(rs.at.Block()) {
+				call, ok := g.Cond.(*ssa.Call)
+				if !ok || !g.True {
+					continue
+				}
+				cal := call.Common().StaticCallee()
+				if cal == nil {
+					continue
+				}
+				if strings.HasSuffix(cal.String(), "intsets.Sparse).Equals") || reachesEquals(cal) {
+					exact = true
+				}
+			}
+			if !exact {
+				good, why = false, "a value is returned at "+shortPos(c, nearestPos(rs.at))+" without comparing the stored index set with the requested one"
+			}
+		}
+		if hits == 0 {
+			good, why = false, "no hit path found"
+		}
+		c.Check("C15.R8", funcKey(fn)+":cache-hit-exact", fn.Pos(), good, why, "the subset builder's host-selection cache can answer for a different index set ("+why+"): two selections with the same first index, last index and size share one slot, so a subset is given the hosts of another one - requests are sent to hosts whose metadata lack the requested pair, and the pre-indexed builder disagrees with the filtering one")
+	}
+	if n < 1 {
+		c.Unresolved("C15.R8", "a get(*intsets.Sparse) method of the subset builder's host cache")
 	}
 }
